@@ -5,6 +5,7 @@ from cv import err, flow, rules
 from cv.rules import events_of, order_after_success
 
 TITLE = "Deleting versions and collecting garbage never harm what is kept"
+TECHNIQUE = 'static analysis: MIR dominance (plan before delete), dry-run guard, provenance of the deletion set, who-may-remove and reachability over the call graph, error-propagation classification'
 EXPLANATION = (
     "Decided on the MIR of Archive::delete_bands and everything it calls: (1) the plan (band list, referenced set, "
     "present set, lock re-check) is complete and successful before the first removal on every path; (2) bands are "
